@@ -331,7 +331,7 @@ func (w *World) zero(t types.Type) string {
 		return w.mkStruct(si, fs)
 	}
 	if a, ok := t.Underlying().(*types.Array); ok {
-		return "((as const " + srt + ") " + w.zero(a.Elem()) + ")"
+		return w.constArray(w.sortOf(a.Elem()), w.zero(a.Elem()))
 	}
 	if strings.HasPrefix(srt, "TP!") {
 		w.declare("zero!"+srt, "(declare-const zero!"+srt+" "+srt+")")
@@ -498,3 +498,14 @@ const basePrelude = `(declare-sort Str 0)
 (declare-fun shl (Int Int) Int)
 (declare-fun shr (Int Int) Int)
 `
+
+// constArray returns an array term of the given element sort that maps every index to zero.
+func (w *World) constArray(elemSort, zero string) string {
+	switch zero {
+	case "0", "false", "0.0":
+		return "((as const (Array Int " + elemSort + ")) " + zero + ")"
+	}
+	n := "zeroarr!" + sanitize(elemSort)
+	w.declare(n, fmt.Sprintf("(declare-const %s (Array Int %s))\n(assert (forall ((i Int)) (! (= (select %s i) %s) :pattern ((select %s i)))))", n, elemSort, n, zero, n))
+	return n
+}
